@@ -13,6 +13,8 @@
 //              (C14_random_seam.h): inverse-CDF identity dt = -ln(x)/k, x in {1-u, u}
 #include <algorithm>
 #include <memory>
+#include <new>
+#include <type_traits>
 #include <cfloat>
 
 #include "bsx.h"
@@ -374,6 +376,7 @@ static std::string histstr(bool gnode, const std::vector<HOp> &ops) { return std
 static const double EV = tools::conv::ev2hrt;
 struct RateCase {
   int carrier = 0;          // 0 e, 1 h, 2 s, 3 t
+  int style = 0;            // how the Rate_Engine is constructed / what happens to the caller's field afterwards (see stylename)
   double E1 = 0, E2 = 0;    // site energies (Hartree)
   double lam = 0, lo = 0;   // equal forward/backward reorganisation energy, outer-sphere part
   double J2a = 0, J2b = 0;  // two squared couplings
@@ -387,7 +390,7 @@ static void p3(const std::string &s, double *v) {
 }
 static std::string ratecasestr(const RateCase &c) {
   return "rate;c=" + std::to_string(c.carrier) + ";E1=" + hexd(c.E1) + ";E2=" + hexd(c.E2) + ";lam=" + hexd(c.lam) + ";lo=" + hexd(c.lo) +
-         ";J2a=" + hexd(c.J2a) + ";J2b=" + hexd(c.J2b) + ";kT=" + hexd(c.kT) + ";F=" + v3(c.F) + ";r1=" + v3(c.r1) + ";r2=" + v3(c.r2);
+         ";J2a=" + hexd(c.J2a) + ";J2b=" + hexd(c.J2b) + ";kT=" + hexd(c.kT) + ";F=" + v3(c.F) + ";r1=" + v3(c.r1) + ";r2=" + v3(c.r2) + ";style=" + std::to_string(c.style);
 }
 static std::string ratecasehuman(const RateCase &c) {
   char b[400];
@@ -399,11 +402,37 @@ static std::string ratecasehuman(const RateCase &c) {
   return b;
 }
 
+// ---- construction styles of the engine.  The engine must use the field (and kT) VALUE it was given at construction,
+// whatever the caller does with its own variables afterwards and however long they live.
+static const int NSTYLES = 8;
+static const char *stylename(int k) {
+  static const char *n[NSTYLES] = {"named field vector left alone (control)", "named field vector set to another field after construction", "named field vector set to zero after construction",
+                                   "one field variable re-used for a sweep, engines evaluated afterwards", "engine constructed from a temporary expression",
+                                   "engine returned by value from a helper whose local field went out of scope", "engine copy-constructed, source engine and its heap field destroyed",
+                                   "engine copy-assigned, source engine and its heap field destroyed"};
+  return n[k];
+}
+__attribute__((noinline)) static void clobber_stack() {  // overwrite dead stack frames with values that are no plausible field
+  volatile double junk[1024];
+  for (int i = 0; i < 1024; i++) junk[i] = 1e30 + double(i);
+  asm volatile("" ::: "memory");
+}
+__attribute__((noinline)) static Rate_Engine engine_from_helper(double kT, const double *F) {
+  Eigen::Vector3d local(F[0], F[1], F[2]);
+  double localkT = kT;
+  return Rate_Engine(localkT, local);
+}
+template <class E>
+static void assign_engine(E &dst, const E &src) {  // copy assignment where the class has one, else destroy + copy-construct
+  if constexpr (std::is_copy_assignable<E>::value) dst = src;
+  else { dst.~E(); new (&dst) E(src); }
+}
+
 static bsx::Outcome run_rate(const RateCase &c) {
   bsx::Outcome o;
   const bool outer = c.lo != 0.0;
   auto failwith = [&](const std::string &key, const std::string &what) {
-    o.ok = false; o.key = key; o.what = what + "  [" + ratecasehuman(c) + "]";
+    o.ok = false; o.key = key + (c.style ? "-style" + std::to_string(c.style) : ""); o.what = what + "  [" + ratecasehuman(c) + (c.style ? std::string("; ") + stylename(c.style) : "") + "]";
     return o;
   };
   try {
@@ -428,12 +457,56 @@ static bsx::Outcome run_rate(const RateCase &c) {
       }
     };
     QMStateType car(states[c.carrier]);
-    Rate_Engine eng(c.kT, F);
     fill(c.J2a);
     if (pair.getReorg12(car) != pair.getReorg21(car)) return failwith("harness-reorg-not-equal", "constructed reorganisation energies differ");
-    Rate_Engine::PairRates ra = eng.Rate(pair, car);
+    // detailed-balance target for an engine that was GIVEN field Fg (energy of a carrier of charge q on site i: E_i - q F.r_i)
+    const double q = c.carrier == 0 ? -1.0 : (c.carrier == 1 ? 1.0 : 0.0);
+    const double E1 = s1.getSiteEnergy(car), E2 = s2.getSiteEnergy(car);
+    auto frof = [&](const Eigen::Vector3d &Fg) { return q * Fg.dot(s2.getPos() - s1.getPos()); };
+    // ---- build the engine in the style under test
+    const Eigen::Vector3d Fother = -1.0 * F + Eigen::Vector3d(2e-5, -1e-5, 3e-5);  // another field of the same size (larger ones underflow exp() at 100 K), different q F.R
+    std::unique_ptr<Rate_Engine> eng;
+    Eigen::Vector3d mine = F;  // caller-side variables of styles 1 and 2
+    double mykT = c.kT;
+    std::vector<Rate_Engine> sweep;
+    std::vector<Eigen::Vector3d> sweepF{Fother, F, 0.5 * F - Eigen::Vector3d(1e-5, 2e-5, -1e-5)};
+    switch (c.style) {
+      case 0: eng.reset(new Rate_Engine(c.kT, F)); break;
+      case 1: case 2:  // the caller's variables stay alive but change before Rate() is called
+        eng.reset(new Rate_Engine(mykT, mine));
+        mine = c.style == 1 ? Fother : Eigen::Vector3d(Eigen::Vector3d::Zero());
+        mykT *= 3;
+        break;
+      case 3: {
+        Eigen::Vector3d f;  // ONE variable for the whole sweep
+        sweep.reserve(sweepF.size());
+        for (size_t i = 0; i < sweepF.size(); i++) { f = sweepF[i]; sweep.emplace_back(c.kT, f); }
+        f.setConstant(7e-3);
+        break;
+      }
+      case 4: eng.reset(new Rate_Engine(c.kT * 1.0, Eigen::Vector3d(c.F[0], c.F[1], c.F[2]) * 1.0)); break;
+      case 5: eng.reset(new Rate_Engine(engine_from_helper(c.kT, c.F))); break;
+      case 6: case 7: {
+        std::unique_ptr<Eigen::Vector3d> hf(new Eigen::Vector3d(F));
+        std::unique_ptr<Rate_Engine> src(new Rate_Engine(c.kT, *hf));
+        if (c.style == 6) eng.reset(new Rate_Engine(*src));
+        else { Eigen::Vector3d other = Fother; eng.reset(new Rate_Engine(c.kT * 2, other)); assign_engine(*eng, *src); other.setZero(); }
+        src.reset();
+        hf->setConstant(5e-3);
+        hf.reset();
+        break;
+      }
+    }
+    clobber_stack();
+    Rate_Engine &E = c.style == 3 ? sweep[1] : *eng;
+    fill(c.J2a);
+    Rate_Engine::PairRates ra = E.Rate(pair, car);
     fill(c.J2b);
-    Rate_Engine::PairRates rb = eng.Rate(pair, car);
+    Rate_Engine::PairRates rb = E.Rate(pair, car);
+    // control: an engine constructed here and now from a named vector that nobody touches
+    Rate_Engine ctrl(c.kT, F);
+    fill(c.J2a);
+    Rate_Engine::PairRates ca = ctrl.Rate(pair, car);
 
     // positive
     for (double k : {ra.rate12, ra.rate21, rb.rate12, rb.rate21})
@@ -452,9 +525,7 @@ static bsx::Outcome run_rate(const RateCase &c) {
       }
     }
     // detailed balance.  Energy of a carrier of charge q on site i in a uniform field: E_i - q F.r_i
-    double q = c.carrier == 0 ? -1.0 : (c.carrier == 1 ? 1.0 : 0.0);
-    double E1 = s1.getSiteEnergy(car), E2 = s2.getSiteEnergy(car);
-    double fr = q * F.dot(s2.getPos() - s1.getPos());
+    double fr = frof(F);
     double want = -((E2 - E1) - fr) / c.kT;
     double flipped = -((E2 - E1) + fr) / c.kT;
     double l12 = std::log(ra.rate12), l21 = std::log(ra.rate21);
@@ -468,8 +539,20 @@ static bsx::Outcome run_rate(const RateCase &c) {
       else key = "balance-field-term";
       return failwith(key, "ln(k12/k21) = " + bsx::fmt(got) + " but -(E2-E1 - q F.(r2-r1))/kT = " + bsx::fmt(want));
     }
+    // same construction value => same rates as the control engine, bit for bit
+    if (c.style && (ra.rate12 != ca.rate12 || ra.rate21 != ca.rate21))
+      return failwith("rate-differs-from-control", "rates " + bsx::fmt(ra.rate12) + " / " + bsx::fmt(ra.rate21) + " but an engine freshly built from the same field value gives " +
+                                                       bsx::fmt(ca.rate12) + " / " + bsx::fmt(ca.rate21));
+    if (c.style == 3)  // every engine of the sweep answers for ITS field
+      for (size_t i = 0; i < sweep.size(); i++) {
+        fill(c.J2a);
+        Rate_Engine::PairRates r = sweep[i].Rate(pair, car);
+        double w = -((E2 - E1) - frof(sweepF[i])) / c.kT, g = std::log(r.rate12) - std::log(r.rate21);
+        if (!(std::fabs(g - w) <= 1e-11 * (1.0 + std::fabs(std::log(r.rate12)) + std::fabs(std::log(r.rate21)) + std::fabs(w))))
+          return failwith("balance-sweep-engine", "engine #" + std::to_string(i) + " of the sweep: ln(k12/k21) = " + bsx::fmt(g) + " but its field gives " + bsx::fmt(w));
+      }
     char b[64];
-    snprintf(b, sizeof b, "%d|%.6e", c.carrier, got);
+    snprintf(b, sizeof b, "%d|%d|%.6e", c.carrier, c.style, got);
     o.cls = bsx::fnv(b);
     o.extra = "k12=" + bsx::fmt(ra.rate12) + " k21=" + bsx::fmt(ra.rate21) + " ln(k12/k21)=" + bsx::fmt(got);
   } catch (const std::exception &e) {
@@ -556,6 +639,7 @@ static bsx::Outcome run_case(const std::string &cas) {
   if (cas.rfind("rate;", 0) == 0) {
     RateCase c;
     c.carrier = atoi(m["c"].c_str());
+    c.style = atoi(m["style"].c_str());
     c.E1 = unhex(m["E1"]); c.E2 = unhex(m["E2"]); c.lam = unhex(m["lam"]); c.lo = unhex(m["lo"]);
     c.J2a = unhex(m["J2a"]); c.J2b = unhex(m["J2b"]); c.kT = unhex(m["kT"]);
     p3(m["F"], c.F); p3(m["r1"], c.r1); p3(m["r2"], c.r2);
@@ -692,7 +776,7 @@ int main(int argc, char **argv) {
           c.lam = lam * EV; c.lo = lo * EV; c.J2a = J.first; c.J2b = J.second;
           c.kT = tools::conv::kB * T * EV;
           for (int k = 0; k < 3; k++) { c.F[k] = Fv[k] * Vnm; c.r1[k] = (k == 0 ? 0.3 : (k == 1 ? -0.2 : 0.1)) * nm; c.r2[k] = c.r1[k] + Rv[(size_t)k] * nm; }
-          rates.push_back(c);
+          for (int st = 0; st < NSTYLES; st++) { c.style = st; rates.push_back(c); }
         }
     }
   }
@@ -715,7 +799,9 @@ int main(int argc, char **argv) {
            " x {all equal, geometric over 12 decades up/down, one dominant 1e12, one tiny 1e-12, ramp, alternating, mixed}: ALL decision thresholds of "
            "huffmanTree<T> (tiny T) and of GNode's tree are read, findHoppingDestination is evaluated at 0, 1, every threshold, its two neighbours "
            "and the midpoint of every gap => exact measure of each event's preimage, compared with rate/sum(rates) (tolerance 4(n+2) eps), every "
-           "probed number must select an event of the list, escape rate = sum. (rate) Rate_Engine::Rate on constructed Segment/QMPair over dE x "
+           "probed number must select an event of the list, escape rate = sum. (rate) Rate_Engine::Rate on constructed Segment/QMPair over 8 engine construction styles (named field left alone / set to another field / set to zero "
+           "after construction, one variable re-used for a sweep, temporary expression, returned from a helper, copy-constructed and copy-assigned with the "
+           "source destroyed; stack clobbered before Rate(); the engine must answer for the field VALUE given at construction, bit-identical to a fresh control engine) x dE x "
            "lambda x lambda_outer x J^2 pairs x T x field (0, +-along R, +-across R, generic; 1e7..1e8 V/m) x carriers e/h/s/t x pair vectors: rates "
            "finite > 0, linear in J^2 (16 eps), ln(k12/k21) = -(E2-E1 - q F.(r2-r1))/kT. (time) KMCCalculator::Promotetime with scripted uniform "
            "numbers u incl. 0 and 1-2^-53 x escape rates: finite, >= 0, equals -ln(x)/k for x = 1-u or x = u within 4 ulp; ChooseHoppingDest "
@@ -795,7 +881,7 @@ int main(int argc, char **argv) {
           if (o.extra == "SKIPPED") { R.cap("more than " + std::to_string(MAXCRASH) + " crashing cases: remaining rate cases skipped"); return; }
           if (!o.ok && o.key == "fatal") crashes++;
           R.eval(); R.counters["rate_cases"]++;
-          if (!o.ok) { R.fail(o.key == "fatal" ? "rate-crash" : o.key, o.what + (o.key == "fatal" ? "  [" + ratecasehuman(c) + "]" : ""), ratecasestr(c)); return; }
+          if (!o.ok) { R.fail(o.key == "fatal" ? std::string(o.what.find("signal 14") != std::string::npos ? "rate-timeout" : "rate-crash") + (c.style ? "-style" + std::to_string(c.style) : "") : o.key, o.what + (o.key == "fatal" ? "  [" + ratecasehuman(c) + "]" : ""), ratecasestr(c)); return; }
           R.cls(o.cls);
           if (shown < 4 && i % 601 == 77) { R.sample("rate " + ratecasehuman(c) + " -> " + o.extra); shown++; }
         },
